@@ -259,6 +259,11 @@ def main(argv=None):
     return 0
 
   ctx = Ctx(pid, args.tier, args.seed)
+  rdir0 = os.path.join(VERIF, 'replays', pid)
+  if os.path.isdir(rdir0):          # replay files of earlier runs are stale
+    for f in os.listdir(rdir0):
+      if f.endswith('.json'):
+        os.remove(os.path.join(rdir0, f))
   t0 = time.time()
   mod.run(ctx)
   wall = time.time() - t0
